@@ -543,6 +543,21 @@ def in_hypothesis(case):
     return True
 
 
+def in_hypothesis_w(case):
+    """the hypothesis of inline_eq_runtime_illformed_partial (Genshi.Incl.inHW with T = all match tags): in_hypothesis
+    without "every file is a well-formed template" (an ill-formed file has no stream to check)"""
+    T = case_match_tags(case)
+    for d in case['dirs']:
+        for path, f in d:
+            if 'raw' in f:
+                continue
+            if not zone_free(case, f['body'], T, path, f['kind']) or not cls_ok(case, f['body'], path, f['kind']):
+                return False
+            if f['kind'] == 'text' and not text_ok(f['body']):
+                return False
+    return True
+
+
 def modelled(case):
     """what the Lean model covers: text files that the text syntax can express"""
     for d in case['dirs']:
@@ -970,8 +985,9 @@ def rand_text(rng):
 
 
 class Gen(object):
-    def __init__(self, rng, zone=False, illformed=False, p_missing=0.12):
+    def __init__(self, rng, zone=False, illformed=False, p_missing=0.12, seq=False):
         self.rng = rng
+        self.seq = seq                # always further requests through the same loader
         self.zone = zone              # allow static includes / calls inside match zones (outside the hypothesis)
         self.illformed = illformed
         self.p_missing = p_missing
@@ -1025,7 +1041,7 @@ class Gen(object):
                 second = [[moved, {'kind': kind_of(moved), 'body': self.shadow_body(moved)}]]
             dirs = [first, second]
         case = {'dirs': dirs, 'entry': names[0], 'data': self.data}
-        if rng.random() < 0.3 and len(names) > 1:
+        if (rng.random() < 0.3 or self.seq) and len(names) > 1:
             # further requests through the same loader: other entries (their templates may already
             # have been prepared inside the first one), other data
             then = []
@@ -1225,5 +1241,5 @@ class Gen(object):
         return ['text', rand_text(rng)]
 
 
-def gen_case(rng, zone=False, illformed=False):
-    return Gen(rng, zone=zone, illformed=illformed).case()
+def gen_case(rng, zone=False, illformed=False, seq=False):
+    return Gen(rng, zone=zone, illformed=illformed, seq=seq).case()
